@@ -84,22 +84,26 @@ inductive Err
   | badOp (msg : String)
   deriving Repr, DecidableEq
 
-/-- Behaviour switches: `false` = what the code does; `true` = what a repaired code would do. -/
+/-- Behaviour switches.  The DEFAULT value of every switch is what the code does now; the other value
+    is what a repaired code would do (known findings) or what the code did before a fix was committed
+    (historical switches `f2`, `f16`, default `true`). -/
 structure Toggles where
   /-- F1: also repair the callee's transitive firewall callees when a non-pedantic *query* caller
       takes the Repair slow path (the code does it for `User`/`RepairFirewall` callers only). -/
   f1 : Bool := false
-  /-- F2: a missing observation in `check_callee` means "recompute" instead of `unwrap()` panicking. -/
-  f2 : Bool := false
+  /-- F2 (HISTORICAL, fixed in /repo by 531aeb1): a missing observation in `check_callee` means
+      "recompute".  `false` = the code before the fix: `unwrap()` panics. -/
+  f2 : Bool := true
   /-- F3: runs that ended inside an SCC record no observations. -/
   f3 : Bool := false
   /-- F14: a pending backward projection stays pending until it is performed, whatever the epoch
       (the code only honours a pending flag stamped with the current epoch). -/
   f14 : Bool := false
-  /-- F16: a `CyclicError` returned by the repair of a callee inside `check_callee` means "recompute"
-      (the code discards it with `let _ =` and compares fingerprints of a callee that is still
-      computing, so a node that has just been found to lie on a cycle is cleaned with its old value). -/
-  f16 : Bool := false
+  /-- F16 (HISTORICAL, fixed in /repo by 3fbfd09): a `CyclicError` returned by the repair of a callee
+      inside `check_callee` means "recompute".  `false` = the code before the fix: the result is
+      discarded with `let _ =` and the fingerprints of a callee that is still computing are compared, so
+      a node that has just been found to lie on a cycle is cleaned with its old value. -/
+  f16 : Bool := true
   /-- F31: a node that was marked in an SCC while it was being *repaired* (a callee it re-verified
       closed a cycle through it) keeps the callees registered during the repair when it is re-executed
       (the code clears them, and the re-execution is aborted right after its first read because the
